@@ -232,7 +232,9 @@ func (e *Engine) exec(c *Config, f *Frame, ins ssa.Instruction, rest func(c *Con
 		f.defers = append(f.defers, d)
 		f.idx++
 	case *ssa.Go:
-		e.execGo(c, f, x)
+		if !e.execGo(c, f, x) {
+			return false
+		}
 		f.idx++
 	case *ssa.Call:
 		return e.execCall(c, f, x, rest)
